@@ -13,8 +13,9 @@ register('C19', 'model_checking',
          "clamped piecewise-linear interpolant of the records, across 2-3 buffer-growth events, with the caller's "
          "arrays overwritten after update, and for bounded histories that an update is either recorded or refused.",
          "reals for floats; times strictly increasing; bounded number of updates (<=6 quick, <=12 thorough, 2100 with "
-         "concrete times); dtype=object stands for the float dtype; float() inside base_backend stubbed to identity on "
-         "symbols",
+         "concrete times); up to three symbolic queries in arbitrary order on one object; dtype=object stands for float64, "
+         "other dtypes (complex128, int64, float32) only through a concrete probe at the record times; float() inside "
+         "base_backend stubbed to identity on symbols",
          "symbolic execution of the real class (symx path exploration + z3)", "7/C19")
 register('C03', 'model_checking',
          "Fixed-step part of the property. The real Euler/Heun kernels of the NumPy, Torch and JAX backends run "
@@ -22,7 +23,9 @@ register('C03', 'model_checking',
          "right iterate, exactly round(T/dts) rows exist and all are written (so the result holds for every vector "
          "field). BaseBackend.run's time axis is explored over symbolic reals T, step (times[k] == k*step). The tail of "
          "CircuitTemplate.run (slicing, DataFrame, cutoff) is exercised by tag-flow runs over (T, dt, dts, cutoff) grids.",
-         "reals for floats; steps <= 8/14, store_step <= 4/6; jax.lax.scan and torch.empty are library models; the "
+         "reals for floats; steps <= 8/14, store_step <= 4/6, dt = 1/4 (all cadences) and 1/10 (store steps whose float "
+         "quotient is inexact); the uninterpreted field follows the return-buffer convention probed on a real compiled "
+         "model per backend; jax.lax.scan and torch.empty are library models; the "
          "glue layer is concrete enumeration; adaptive solvers (scipy solve_ivp/ode, diffrax) are NOT claimed: there is "
          "nothing to encode within reach (DESIGN.md section 9)",
          "symbolic execution of the real solver kernels with uninterpreted vector field (symx + z3)", "7/C03")
@@ -43,7 +46,7 @@ register('C15', 'translation_validation',
          "reference semantics for all states and parameters. CrossHair decides parser.replace on symbolic equation/term "
          "strings against a whole-identifier reference (confirmed over all paths within the bound).",
          "reals for floats; YAML emitter of the harness is trusted; edits are compared with token-level edits of the "
-         "spec; CrossHair bounds |eq| <= 4/5, |term| <= 2, alphabet {r,x,_,space,+,=}; _update_equation itself is not "
+         "spec; CrossHair bounds |eq| <= 3/5 over {r,x,_,space,+,=} and |eq| <= 3/4 over r plus every delimiter sign in three groups (^*/-( ).,%@ []:<>!), |term| <= 2; _update_equation itself is not "
          "decidable by CrossHair (sys.intern realises symbolic strings) and is covered through the derived-template "
          "pipeline only",
          "SMT translation validation across frontends (symx + z3) + CrossHair on string helpers", "7/C15")
@@ -56,7 +59,7 @@ register('C05', 'translation_validation',
          "the lhs derivative forms and unique-label generation over symbolic strings / label sequences.",
          "reals for floats; transcendentals are uninterpreted functions with instantiated lemmas, so a `sat` that does "
          "not reproduce numerically is inconclusive (e.g. constants folded by sympy in floating point); depth <= 3/5; "
-         "calls whose arguments are all literals, index helpers, E and complex values are outside; _preprocess_dde_syntax "
+         "calls whose arguments are all literals, index helpers and complex values are outside (the constants pi and E are generated); _preprocess_dde_syntax "
          "is regex based and covered through C10 programs only",
          "SMT translation validation of both evaluation paths (symx + z3) + CrossHair on string helpers", "7/C05")
 register('C20', 'other',
